@@ -263,7 +263,12 @@ func TestClients(t *testing.T) {
 	}
 	ips3 := []uint32{5, 6, 7}
 	long := []byte{0xff, 1, 2, 3, 4, 0, 4, 0xaa, 0xbb, 0xcc, 0xdd, 0xee, 0xff, 0x10, 0x11, 0x12, 0x13, 0x14}
-	duids3 := [][]byte{{1}, {2}, {}, append(append([]byte(nil), long...), 1), append(append([]byte(nil), long...), 2)}
+	long2 := append([]byte(nil), long...) // … and a second pair beyond any plausible rendering limit (40 / 64 / 131 / 255 bytes)
+	for n2 := Pick(r, 39, 63, 130, 254); len(long2) < n2; {
+		long2 = append(long2, byte(0x20+len(long2)))
+	}
+	duids3 := [][]byte{{1}, {2}, {}, append(append([]byte(nil), long...), 1), append(append([]byte(nil), long...), 2),
+		append(append([]byte(nil), long2...), 1), append(append([]byte(nil), long2...), 2)}
 	for i := 0; i < n; i++ {
 		s.Op("cl.reset", "ok", false)
 		var seq []clOp
@@ -329,6 +334,9 @@ func ipdbScript(t *testing.T, r *Rng, s *Stream) {
 		return U32IP(start + uint32(r.Intn(int(min(size, 12)))))
 	}
 	longd := []byte{0xff, 1, 2, 3, 4, 0, 4, 0xaa, 0xbb, 0xcc, 0xdd, 0xee, 0xff, 0x10, 0x11, 0x12, 0x13, 0x14}
+	for n := Pick(r, 18, 18, 39, 63, 130, 254); len(longd) < n; { // pairs that differ only in their last byte, at every identifier size
+		longd = append(longd, byte(0x20+len(longd)))
+	}
 	duids := [][]byte{{1, 1, 1, 1}, {2, 2, 2, 2}, {3, 3, 3, 3}, {}, {0, 3, 0, 0, 2, 0, 0, 0, 0, 9}, append(append([]byte(nil), longd...), 1), append(append([]byte(nil), longd...), 2)}
 	var hist []string
 	hist = append(hist, fmt.Sprintf("db.new base=%d p=%d", base, plen))
